@@ -310,6 +310,8 @@ def evaluate(case):
         shape = {'array': ['radius', 'density', 'gravity', 'bulk', 'shear'][pm0 % 5],
                  'value': ['nan', '0', '-1', 'inf', '-inf', '1e300', '1e-300'][(pm0 // 5) % 7],
                  'pos': ['first', 'middle', 'last'][pm0 % 3]}
+    if mut == 'bad_scalar':
+        shape = {'scalar': ['frequency', 'bulk_density'][pm0 % 2], 'value': ['nan', '0', '-1', 'inf', '1e300', '1e-300'][(pm0 // 2) % 6]}
     known_hang = shape.get('array') == 'radius' and shape.get('pos') == 'first' and shape.get('value') in ('nan', '0', '-inf')
     if known_hang and not case.get('witness'):
         return discard('excluded_known_finding', labels)        # never returns (known); not executed, counted
@@ -390,6 +392,13 @@ def evaluate(case):
                 'result shape %r, expected %r' % (rep.get('result_shape'), [6 * nt, n]))
         c.check(rep.get('love_shape') == [nt, 3], {'clause': 'success_contract', 'what': 'love_shape'},
                 'love shape %r, expected %r' % (rep.get('love_shape'), [nt, 3]))
+        # a solve that did not produce numbers is an unsuccessful solve and must be reported as one: with success=True the Love
+        # number k of every requested type is a finite number (h, l are NaN by design on a liquid surface; k never is)
+        # `input`: was a non-finite number (NaN, +-inf) put into the arguments?  (one root cause: inputs are not validated for
+        # finiteness, see KF-C06-nonfinite-input-success) - anything else that ends here is a different defect
+        inp = 'nonfinite' if shape.get('value') in ('nan', 'inf', '-inf') else ('finite_extreme' if shape.get('value') else 'clean')
+        c.check(rep.get('k_finite') is not False, dict({'clause': 'success_contract', 'what': 'k_not_finite', 'mut': mut, 'input': inp}, **shape),
+                'success=True but k is not finite for some requested type (message %r)' % rep.get('message'))
         c.check(bool(rep.get('message_ok')), {'clause': 'success_contract', 'what': 'message'}, 'message %r' % rep.get('message'))
     else:
         c.check(bool(rep.get('message_ok')), {'clause': 'failure_contract', 'what': 'message'}, 'message %r' % rep.get('message'))
